@@ -3,13 +3,16 @@ from __future__ import annotations
 
 import itertools
 
-REQUIRED = ["Swh.C20.toposort_perm", "Swh.C20.toposort_parents_first"]
+REQUIRED = ["Swh.C20.toposort_perm", "Swh.C20.toposort_parents_first", "Swh.C20.run_perm", "Swh.C20.run_parents_first",
+            "Swh.C20.run_never_stuck", "Swh.C20.run_extends", "Swh.C20.fifo_isRun", "Swh.C20.toposortBy_isRun", "Swh.C20.isRun_exact"]
 RULE = (
     "random DAGs of 0-60 revisions (linear chains, forks, octopus merges, several roots, disconnected "
     "components, duplicated parent ids; plus main-line histories of 1100-3000 (thorough: up to 10000) revisions with merged side branches) given in random input permutations (thorough: all permutations up "
     "to 7 nodes); non-trivial = at least one revision with >=1 parent; distinct by canonical JSON of the log"
 )
-ASSUMPTIONS = ["dict/deque/defaultdict behave as total maps / FIFO queue (checked by the exact-sequence correspondence)"]
+ASSUMPTIONS = ["dict/deque/defaultdict behave as total maps / FIFO queue (checked by the exact-sequence correspondence; "
+               "a sequence that is not the FIFO one is accepted when the Lean run checker `isRun` validates it as a run of the "
+               "work-list algorithm under another discipline, for which the same theorems are proved)"]
 TRUSTED = ["collections.deque, collections.defaultdict"]
 
 
@@ -119,6 +122,7 @@ def check_cases(ctx, cases):
                     ctx.fail(case, f"revision {r['id']} is yielded before its parent {p}", "child-before-parent", {"order": order})
                     break
     res = ctx.model(reqs)
+    other = []
     for case, r, order in zip(cases, res, impls):
         if order is None:
             continue
@@ -126,8 +130,18 @@ def check_cases(ctx, cases):
             if ctx.model_available:
                 ctx.disagree(case, "model driver error", model=r)
             continue
-        if r["r"]["order"] != order:
-            ctx.disagree(case, "yield order differs between model and implementation", model=r["r"]["order"], impl=order)
+        if r["r"]["order"] == order:
+            ctx.count("tie=fifo-sequence-exact")
+            continue
+        other.append((case, r["r"]["order"], order))
+    # not the FIFO sequence: is it the yield sequence of the abstract algorithm under some other
+    # work-list discipline (theorems run_perm / run_parents_first hold for every such run)?
+    res2 = ctx.model([{"op": "toposort_run", "log": case["log"], "order": order} for case, _, order in other]) if other else []
+    for (case, fifo, order), rr in zip(other, res2):
+        if "error" not in rr and rr["r"].get("is_run") is True:
+            ctx.count("tie=run-of-abstract-algorithm")
+        else:
+            ctx.disagree(case, "the yielded sequence is neither the FIFO model's nor a run of the abstract work-list algorithm", model=fifo[:50], impl=order[:50])
 
 
 def neighbours(ctx, case):
